@@ -13,13 +13,48 @@ def _run(args):
         from . import family_det as m
     elif fam == "err":
         from . import family_err as m
+    elif fam in ("fs17", "fs18", "fs19"):
+        from . import family_fs as m
+    elif fam == "js":
+        from . import family_js as m
+    elif fam == "mut":
+        from . import family_mut as m
+    elif fam == "conc":
+        from . import family_conc as m
     else:
         from . import family_arch as m
     r = m.run_job(job)
     return (fam, job["index"], [tuple(t) for t in r.get("trace", [])])
 
 
+def run_twin(tier, seed):
+    """Model validation: the production twin (real rayon, real threads) must produce the same bytes
+    as the simulated linker for every determinism class."""
+    import subprocess
+    from . import family_det
+    from .common import VERIF
+    import os
+    rc = subprocess.run([os.path.join(VERIF, "checks", "build_twin.sh")]).returncode
+    if rc != 0:
+        raise HarnessError("twin build failed")
+    n = {"quick": 16, "thorough": 160}[tier]
+    jobs = [{"prop": "C06", "seed": seed, "index": i, "tier": "quick", "schedules": 3, "twin": True}
+            for i in range(n)]
+    equal = 0
+    bad = 0
+    for r in pool_map(family_det.run_job, jobs):
+        equal += r["counters"].get("twin_equal_classes", 0)
+        for v in r["violations"]:
+            bad += 1
+            print(f"   {v['signature']}: {v['detail'][:300]}")
+    print(f"twin: {n} classes, {equal} with production output == simulated output (3 real executions "
+          f"each, threads 4/1/8), {bad} violations")
+    return 1 if bad else (0 if equal == n else 2)
+
+
 def run(what, tier, seed):
+    if what == "twin":
+        return run_twin(tier, seed)
     if what != "determinism":
         raise HarnessError(f"unknown selftest {what}")
     n = {"quick": 4, "thorough": 40}[tier]
@@ -29,6 +64,15 @@ def run(what, tier, seed):
         for i in range(n):
             jobs.append((fam, {"prop": "selftest", "seed": seed, "index": i, "tier": "quick",
                                "schedules": sched}))
+    # Process-level families (crash grid, system-call fault seam, jobserver, input mutation,
+    # concurrent links): same plan => same exit status, step count, interleaving hash, fired
+    # system-call faults and call counts.
+    m = max(1, n // 2)
+    for fam, prop in (("fs17", "C17"), ("fs18", "C18"), ("fs19", "C19"), ("js", "C35"), ("mut", "C20"),
+                      ("conc", "C19")):
+        for i in range(m):
+            jobs.append((fam, {"prop": prop, "seed": seed, "index": i, "tier": "quick",
+                               "schedules": 2}))
     a = pool_map(_run, jobs)
     b = pool_map(_run, jobs, procs=3)
     c = pool_map(_run, list(reversed(jobs)), procs=7)
